@@ -150,3 +150,37 @@ Theorem C15_carry : forall fk, filter_ok fk = true ->
      clog (fst (cstep_op fk c (OP (PCopy x y)))) x = clog c x).
 Proof. exact RefSql_proofs.carry. Qed.
 Print Assumptions C15_carry.
+
+(** RenameAllRemoteRefs r r' (= `wrgl remote rename`), for remotes whose prefixes "remotes/r/" and
+    "remotes/r'/" are not nested, is a map operation on exactly the names under the old remote: it
+    succeeds whenever every destination is free, and when it succeeds every name remotes/r/<rest>
+    is gone and remotes/r'/<rest> holds the value and the whole log that remotes/r/<rest> had (or
+    is unchanged when there was no such ref) - whatever characters r and r' consist of, in
+    particular when r occurs inside the literal "remotes/".  All other names: C15_frame. *)
+Theorem C15_bulk_rename_exact : forall fk, filter_ok fk = true ->
+  forall (ops : list op) (r r' : bytes),
+  let op := remote_prefix r in
+  let np := remote_prefix r' in
+  is_prefix op np = false -> is_prefix np op = false ->
+  let c := creach fk cinit ops in
+  let c' := fst (cstep_op fk c (ORenRemote r r')) in
+  snd (cstep_op fk c (ORenRemote r r')) = ROk ->
+  forall rest,
+    cget c' (op ++ rest) = None /\ clog c' (op ++ rest) = ([], true) /\
+    cget c' (np ++ rest) =
+      (match cget c (op ++ rest) with Some v => Some v | None => cget c (np ++ rest) end) /\
+    clog c' (np ++ rest) =
+      (match cget c (op ++ rest) with Some _ => clog c (op ++ rest) | None => clog c (np ++ rest) end).
+Proof. exact RefSql_proofs.bulk_rename_exact. Qed.
+Print Assumptions C15_bulk_rename_exact.
+
+Theorem C15_bulk_rename_succeeds : forall fk, filter_ok fk = true ->
+  forall (ops : list op) (r r' : bytes),
+  let op := remote_prefix r in
+  let np := remote_prefix r' in
+  is_prefix op np = false -> is_prefix np op = false ->
+  let c := creach fk cinit ops in
+  (forall rest, cget c (op ++ rest) <> None -> cget c (np ++ rest) = None) ->
+  snd (cstep_op fk c (ORenRemote r r')) = ROk.
+Proof. exact RefSql_proofs.bulk_rename_succeeds. Qed.
+Print Assumptions C15_bulk_rename_succeeds.
